@@ -19,4 +19,22 @@ func init() {
 		Oracle: "bounded progress once scripted operations stop (Shutdown and Serve return within 60 simulated seconds of the last enabled action); no panic in any task or library goroutine; at Shutdown's return no callback is executing and none starts later in that epoch; connection closed exactly once per epoch; calls entirely inside the started window take effect, calls entirely inside the stopped window have none.",
 		Scen:   []ScenBudget{{"core", 8000, 500000}},
 	})
+	addCheck(&CheckSpec{
+		Property: "C04", Level: "exploration", OwnsPanics: true,
+		Rule:   "requests scenario: a peer sends access/get/call/auth requests (call.<r>.new with and without New handler, * fallbacks, unknown methods and resources, empty/null/malformed payloads, HTTP flag on/off, missing reply subject) at many resources concurrently; handlers follow generated behaviour scripts (reply kinds, pre-responses, events, nested Value, meta setters, double reply, no reply, panic with *Error/error/string/int/nil-deref before or after replying, unmarshalable values); slow-consumer drops, request loss and publish errors are injected.",
+		Oracle: "at quiescence, on each delivered request's unique reply inbox the number of publish attempts that are not pre-responses is exactly 1 (0 only for access without access handler or a request without reply subject); undelivered requests get nothing; no handler panic kills a goroutine.",
+		Scen:   []ScenBudget{{"requests", 6000, 400000}},
+	})
+	addCheck(&CheckSpec{
+		Property: "C05", Level: "exploration",
+		Rule:   "same runs as C04 (requests scenario); resource names with dots and method-like tokens are weighted up.",
+		Oracle: "refinement against an executable dispatch model (own subject split, own matcher, handler selection with new/* rules, not-found/method-not-found/bad-JSON rules) and a response model walking the handler script (reply kinds with exact payloads, meta on HTTP, panic and Error mapping, missing reply); the request view recorded by the handler (rname, method, path params, query, cid, token, params, header, host, remote address, URI, HTTP flag, group) must equal what the peer sent for that inbox while other requests are in flight; responses are also parsed with resprot.ParseResponse.",
+		Scen:   []ScenBudget{{"requests", 6000, 400000}},
+	})
+	addCheck(&CheckSpec{
+		Property: "C07", Level: "exploration",
+		Rule:   "transport monitor on every Publish of the requests and core scenarios: results/models/collections/event payloads that are nil, nested, need escaping or cannot be marshalled; every meta combination on HTTP and non-HTTP requests; marshal failures and publish errors as injected faults.",
+		Oracle: "independent validator written from the RES protocol text: subject is a publishable NATS subject of a documented form (reply inbox handed out by the peer, event.<rid>.<name>, system.reset, system.tokenReset, conn.<cid>.token); payload has the documented shape for its kind (response with exactly one of result/resource/error, error with string code and message, meta only for HTTP requests, pre-response timeout:\"<ms>\", per-event fields).",
+		Scen:   []ScenBudget{{"requests", 5000, 300000}, {"core", 3000, 200000}},
+	})
 }
